@@ -144,11 +144,6 @@ class ReindexAxis(Contract):
             return {IndexError: S.exists(0, m, lambda k: self._missing(S, env, case, k))}
         return {IndexError: False}
 
-    def known_regions(self, S, case, env):
-        # open finding (known_findings.json): reindexing FROM an empty axis onto a non-empty one raises instead of filling
-        L, new = env["labels"][case["d"]], env["new"]
-        return {"empty-source-axis": S.land(S.n(L) == 0, S.n(new) > 0)}
-
     def post(self, S, case, env, result):
         arr, labels, data, new, d = env["arr"], env["labels"], env["old"], env["new"], case["d"]
         L = labels[d]
@@ -375,7 +370,6 @@ def _reindex_fresh(self, S, case, env):
 ReindexAxis.bind = staticmethod(_reindex_bind)
 ReindexAxis.requires = _reindex_requires
 ReindexAxis.fresh_result = _reindex_fresh
-ReindexAxis.region_behaviour = {"empty-source-axis": IndexError}
 ReindexAxis.stub_target = "dimarray.core.dimarraycls:DimArray.reindex_axis"     # called as a method (class attribute)
 
 
@@ -508,22 +502,6 @@ class Align(Contract):
 
     def raises(self, S, case, env):
         return {IndexError: False}
-
-    def known_regions(self, S, case, env):
-        # open finding: an input whose axis on an aligned dimension is EMPTY cannot be reindexed onto a non-empty common
-        # axis (reindex_axis' own recorded region, lifted to align).  Phrased over the common axis the callee returned: whether
-        # that axis is non-empty follows from the inputs only through union's set semantics, which callers cannot assume.
-        try:
-            common, _ = self._common(S, case, env)
-        except Exception:
-            return {}        # natively: _get_aligned_axes itself failed; not this region
-        cax = {ax.name: ax.values for ax in common}
-        conds = []
-        for t, ds in enumerate(self.CONFIGS[case["cfg"]]):
-            for d in ds:
-                if d in cax:
-                    conds.append(S.land(S.n(env["labels"][t][d]) == 0, S.n(cax[d]) > 0))
-        return {"empty-operand-axis": S.lor(*conds)} if conds else {}
 
     def _common(self, S, case, env):
         calls = S.calls("GetAlignedAxes")
